@@ -180,15 +180,55 @@ func elemSortOf(arr string) string {
 
 func arrSort(elem string) string { return "(Array Int " + elem + ")" }
 
+// sexprArgs splits "(f a b c)" into its head and top-level arguments.
+func sexprArgs(s string) (string, []string) {
+	if len(s) < 2 || s[0] != '(' || s[len(s)-1] != ')' {
+		return s, nil
+	}
+	body := s[1 : len(s)-1]
+	var parts []string
+	d := 0
+	start := 0
+	for i := 0; i <= len(body); i++ {
+		if i == len(body) || (body[i] == ' ' && d == 0) {
+			if i > start {
+				parts = append(parts, body[start:i])
+			}
+			start = i + 1
+			continue
+		}
+		switch body[i] {
+		case '(':
+			d++
+		case ')':
+			d--
+		}
+	}
+	if len(parts) == 0 {
+		return s, nil
+	}
+	return parts[0], parts[1:]
+}
+
+// proj applies selector sel to a datatype term, simplifying sel(mk(...)) syntactically.
+func proj(sel string, ctor string, idx int, s Term) Term {
+	if strings.HasPrefix(s.S, "("+ctor+" ") {
+		if h, args := sexprArgs(s.S); h == ctor && idx < len(args) {
+			return Term{S: args[idx], Sort: SInt}
+		}
+	}
+	return mk(SInt, sel, s)
+}
+
 // slice / string projections
-func slPtr(s Term) Term { return mk(SInt, "sl.ptr", s) }
-func slLen(s Term) Term { return mk(SInt, "sl.len", s) }
-func slCap(s Term) Term { return mk(SInt, "sl.cap", s) }
+func slPtr(s Term) Term { return proj("sl.ptr", "mk.Slice", 0, s) }
+func slLen(s Term) Term { return proj("sl.len", "mk.Slice", 1, s) }
+func slCap(s Term) Term { return proj("sl.cap", "mk.Slice", 2, s) }
 func mkSlice(p, l, c Term) Term {
 	return mk(SSlice, "mk.Slice", p, l, c)
 }
-func stPtr(s Term) Term { return mk(SInt, "st.ptr", s) }
-func stLen(s Term) Term { return mk(SInt, "st.len", s) }
+func stPtr(s Term) Term { return proj("st.ptr", "mk.Str", 0, s) }
+func stLen(s Term) Term { return proj("st.len", "mk.Str", 1, s) }
 func mkStr(p, l Term) Term {
 	return mk(SStr, "mk.Str", p, l)
 }
